@@ -30,6 +30,11 @@ claim("C16", "differential model-based testing of wrapper stacks (prefix map mod
   "gas charges as documented in store/gaskv and KVGasConfig; state after a gas panic is not asserted; trace lines exact only for a trace wrapper on top of the stack",
   "DESIGN.md §4 C16")
 
+claim("C14", "model-based property testing of store queries on a live BaseApp with real proof verification (differential across heights, metamorphic value/key flips)", "exploration",
+  "Generated tx/commit/query histories on a BaseApp with a kv module: every /store/<s>/key answer is compared with the snapshot committed at the requested height (also while uncommitted writes exist), proofs are verified with the real proof runtime against that height's app hash, must fail against every other height's hash and for flipped values/keys; pruned/future heights must return neither value nor proof.",
+  "tendermint merkle proof runtime trusted as verifier; two known findings rooted in tendermint/iavl v0.12.4 getRangeProof (absence-proof leaves, all-0xFF key) are excluded by predicates computed from the committed key set and reported as KNOWN-FINDING",
+  "DESIGN.md §4 C14")
+
 NOT_YET = "check not built yet in this revision (work in progress, see DESIGN.md Appendix C)"
 m = dict(version=1,
   setup_cmd="./verif.sh build",
